@@ -39,9 +39,17 @@ package hackpadfs
 //@   ensures "other" implies(err != nil && !isPathError(err) && !isLinkError(err), r == err)
 //@   ensures "shape" implies(isPathError(err) || isLinkError(err), sameErrShape(r, err) && fresh(r))
 //@   ensures "identity" implies(isPathError(err) && name == mountSubPath, pathOf(r) == pathOf(err))
-//@   ensures "sub-path" forall(base, string, implies(isPathError(err) && VP(base) && VP(name) && mountSubPath == pjoin(base, name) &&
+//@   ensures "sub-path" forall(base, string, implies(vpSplit(base, pathOf(r)) && vpBasic(base) && vpBasic(name) && vpBasic(pathOf(err)) &&
+//@                        isPathError(err) && VP(base) && VP(name) && mountSubPath == pjoin(base, name) &&
 //@                        VP(pathOf(err)) && under(pathOf(err), base), VP(pathOf(r)) && pjoin(base, pathOf(r)) == pathOf(err)))
-//@   ensures "mount-path" forall(mp, string, implies(isPathError(err) && VP(mp) && mp != "." && VP(mountSubPath) && name == pjoin(mp, mountSubPath) &&
+//@   ensures "mount-path" forall(mp, string, implies(vpBasic(mp) && vpBasic(mountSubPath) && vpBasic(pathOf(err)) && isPathError(err) && VP(mp) && mp != "." && VP(mountSubPath) && name == pjoin(mp, mountSubPath) &&
 //@                        VP(pathOf(err)), pathOf(r) == pjoin(mp, pathOf(err))))
-//@   ensures "never-empty" implies(isPathError(err) && VP(name) && VP(pathOf(err)), pathOf(r) != "")
+//@   ensures "sub-link" forall(base, string, implies(vpSplit(base, oldOf(r)) && vpSplit(base, newOf(r)) && vpBasic(base) && vpBasic(name) && vpBasic(oldOf(err)) && vpBasic(newOf(err)) &&
+//@                        isLinkError(err) && VP(base) && VP(name) && mountSubPath == pjoin(base, name) &&
+//@                        VP(oldOf(err)) && under(oldOf(err), base) && VP(newOf(err)) && under(newOf(err), base),
+//@                        pjoin(base, oldOf(r)) == oldOf(err) && pjoin(base, newOf(r)) == newOf(err)))
+//@   ensures "mount-link" forall(mp, string, implies(vpBasic(mp) && vpBasic(mountSubPath) && vpBasic(oldOf(err)) && vpBasic(newOf(err)) && isLinkError(err) &&
+//@                        VP(mp) && mp != "." && VP(mountSubPath) && name == pjoin(mp, mountSubPath) && VP(oldOf(err)) && VP(newOf(err)),
+//@                        oldOf(r) == pjoin(mp, oldOf(err)) && newOf(r) == pjoin(mp, newOf(err))))
+//@   ensures "never-empty" implies(vpBasic(name) && vpBasic(pathOf(err)) && isPathError(err) && VP(name) && VP(pathOf(err)), pathOf(r) != "")
 //@   nopanic
